@@ -936,3 +936,27 @@ def c13_later_shutdown_sends_nothing(api, run):
     if late:
         fail(api, "C13: a later explicit shutdown() sent co_shutdown() again: %s" % late[:3], run)
     api.note("c13_later_shutdown")
+
+
+# ------------------------------------------------------------------------------- C17 after a run
+def c17_after_run(api, run):
+    """a run computes the reverse links when it starts and must leave them as they are: afterwards the queries
+    still agree with the requirements, also with the documented shortcut compute_backlinks=False"""
+    if run.outcome[0] != "ret":
+        return
+    for s in run.scheds():
+        if run.first(s.name, "run_end") is None:
+            continue
+        api.note("nt")
+        for m in s.children:
+            want = set(k.obj for k in s.children if m in k.reqs)
+            for flag_ in (False, True):
+                got = list(s.obj.successors(m.obj, compute_backlinks=flag_))
+                if set(got) != want or len(got) != len(set(got)):
+                    fail(api, "C17: after the run, successors(%s, compute_backlinks=%s) of %s = %s, expected %s"
+                         % (m, flag_, s, sorted(str(getattr(x, "_node", x)) for x in got),
+                            sorted(str(k) for k in s.children if m in k.reqs)), run)
+        want = set(m.obj for m in s.children if not any(m in k.reqs for k in s.children))
+        got = set(s.obj.exit_jobs(discard_forever=False, compute_backlinks=False))
+        if got != want:
+            fail(api, "C17: after the run, exit_jobs(compute_backlinks=False) of %s is wrong" % s, run)
